@@ -327,7 +327,8 @@ def compare(obs, got, want, tag, frames=None):
             obs.fail(f"{tag}|expected-{w[0]}{'-' + w[1] if w[0] == 'raise' else ''}|got-{e[0]}{extra}", f"event {i}: expected {_short(w)}, got {_short(e)}")
             return False
         if w[0] == "raise":
-            if e[1] != w[1]:
+            if e[1] != w[1] and not (w[1] == "WebSocketPayloadException" and e[1] == "WebSocketProtocolException"):
+                # (ill-formed text may be reported as a payload *or* a protocol exception)
                 obs.fail(f"{tag}|expected-raise-{w[1]}|got-raise-{e[1]}@{innermost_ws_frame(e[4]) if len(e) > 4 else '?'}", f"event {i}: expected {_short(w)}, got {_short(e)}")
                 return False
             if e[2] != w[2]:
